@@ -68,6 +68,11 @@ Definition ver_pcmp (a b : ver) : option comparison :=
   else if N.leb (fst a) (fst b) && N.leb (snd a) (snd b) then Some Lt
   else if N.leb (fst b) (fst a) && N.leb (snd b) (snd a) then Some Gt
   else None.
+(* the same order with versions that compare to nothing, not even to themselves (first component
+   99), like f64::NAN: partial_cmp returns None on them *)
+Definition ver_nan (a : ver) : bool := N.eqb (fst a) 99.
+Definition ver_pcmp_nan (a b : ver) : option comparison :=
+  if ver_nan a || ver_nan b then None else ver_pcmp a b.
 Definition ver_cmp (a b : ver) : comparison :=
   match N.compare (fst a) (fst b) with Eq => N.compare (snd a) (snd b) | c => c end.
 
